@@ -957,6 +957,11 @@ struct Budgets {
 
 /// one pass over all generated streams; `stop` is asked before every case (a `--search 1` run is cut by the clock)
 fn streams(ctx: &mut Ctx, rng: &mut Rng, b: &Budgets, stop: &dyn Fn() -> bool) {
+    let mut t_last = std::time::Instant::now();
+    let mut lap = |ctx: &mut Ctx, name: &str| {
+        ctx.rep.count_n(&format!("stream-ms:{name}"), t_last.elapsed().as_millis() as u64);
+        t_last = std::time::Instant::now();
+    };
 
     // ---- valid-by-construction ------------------------------------------------------------------
     let mut batch = vec![];
@@ -982,6 +987,7 @@ fn streams(ctx: &mut Ctx, rng: &mut Rng, b: &Budgets, stop: &dyn Fn() -> bool) {
     ctx.run(&batch);
     batch.clear();
 
+    lap(ctx, "valid");
     // ---- valid + verbatim re-declarations of built-in directives (allowed) --------------------------------
     for k in 0..b.n_redeclare {
         if stop() {
@@ -1011,6 +1017,7 @@ fn streams(ctx: &mut Ctx, rng: &mut Rng, b: &Budgets, stop: &dyn Fn() -> bool) {
     ctx.run(&batch);
     batch.clear();
 
+    lap(ctx, "valid-redeclare");
     // ---- single-fault mutations -----------------------------------------------------------------
     for k in 0..b.n_mut {
         if stop() {
@@ -1041,6 +1048,7 @@ fn streams(ctx: &mut Ctx, rng: &mut Rng, b: &Budgets, stop: &dyn Fn() -> bool) {
     ctx.run(&batch);
     batch.clear();
 
+    lap(ctx, "mutation");
     // ---- several faults at once (K only) --------------------------------------------------------
     for _ in 0..b.n_junk {
         if stop() {
@@ -1067,6 +1075,7 @@ fn streams(ctx: &mut Ctx, rng: &mut Rng, b: &Budgets, stop: &dyn Fn() -> bool) {
     ctx.run(&batch);
     batch.clear();
 
+    lap(ctx, "junk");
     // ---- covariance pairs -----------------------------------------------------------------------
     let pairs = pair_cases(rng, b.n_pairs);
     for c in &pairs {
@@ -1079,6 +1088,7 @@ fn streams(ctx: &mut Ctx, rng: &mut Rng, b: &Budgets, stop: &dyn Fn() -> bool) {
         ctx.run(chunk);
     }
 
+    lap(ctx, "pairs");
     // ---- graph-shaped gadgets: implements graph, directive reference graph, input-object nesting --------
     // (chains / diamonds / DAGs = valid; cycles, lassos, deep omissions, deep literal faults = one fault)
     for k in 0..b.n_graph {
@@ -1127,6 +1137,7 @@ fn streams(ctx: &mut Ctx, rng: &mut Rng, b: &Budgets, stop: &dyn Fn() -> bool) {
     ctx.run(&batch);
     batch.clear();
 
+    lap(ctx, "graph");
     // ---- interface implementations: IsValidImplementation 2.c / 2.d over the shape of both sides (c05/implx.rs) --------
     // half valid (must get no diagnostic), half one fault of rule `iface-field-args`; gadget next to a root type / inside a
     // full generated schema, or an operator applied to an implementing field the generated schema already has
@@ -1156,7 +1167,7 @@ fn streams(ctx: &mut Ctx, rng: &mut Rng, b: &Budgets, stop: &dyn Fn() -> bool) {
             }
             None => {
                 let g = implx::impl_gadget(rng, faulty);
-                if mode == 1 {
+                if mode == 1 || mode == 2 {
                     items = vec![obj("Query", &[], vec![fd("q", Ty::named("Int"))])];
                 } else {
                     let (doc, f) = gen_valid(rng, !faulty);
@@ -1194,6 +1205,7 @@ fn streams(ctx: &mut Ctx, rng: &mut Rng, b: &Budgets, stop: &dyn Fn() -> bool) {
     }
     ctx.run(&batch);
     batch.clear();
+    lap(ctx, "implementation");
 }
 
 fn main() {
@@ -1201,7 +1213,7 @@ fn main() {
     quiet_panics();
     let mut rep = Report::new(
         "C05",
-        "type-system documents as 1-3 SDL files: valid-by-construction schemas (all seven kinds, extensions, interface chains/diamonds, directive definitions with arguments, applications at every location) and single-fault mutations labelled by rule; non-trivial = spec-confirmed case, distinct by (rule, position class) for mutations and by feature set for valid schemas",
+        "type-system documents as 1-3 SDL files: valid-by-construction schemas (all seven kinds, extensions, interface chains/diamonds, directive definitions with arguments, applications at every location), single-fault mutations labelled by rule, graph-shaped gadgets, interface implementations over the shape of both argument lists (none / one / several x add / drop / rename / retype / re-null / re-default); non-trivial = spec-confirmed case, distinct by (rule, position class) for mutations and by feature set for valid schemas",
     );
     let mut drv = Driver::spawn(&args.driver);
     let mut ctx = Ctx { rep: &mut rep, drv: &mut drv, pending: vec![] };
@@ -1228,7 +1240,7 @@ fn main() {
         let cap = std::time::Duration::from_secs(args.extra.get("search-seconds").and_then(|s| s.parse().ok()).unwrap_or(40));
         let started = std::time::Instant::now();
         let stop = || started.elapsed() > cap;
-        let b = Budgets { n_valid: 300, n_redeclare: 120, n_mut: 900, n_junk: 150, n_pairs: 300, n_graph: 480, n_impl: 400 };
+        let b = Budgets { n_valid: 300, n_redeclare: 120, n_mut: 900, n_junk: 150, n_pairs: 300, n_graph: 480, n_impl: 360 };
         let mut passes = 0;
         while !stop() && passes < 40 {
             streams(&mut ctx, &mut rng, &b, &stop);
@@ -1244,7 +1256,7 @@ fn main() {
             n_junk: args.budget(150, 2000),
             n_pairs: args.budget(300, 3000),
             n_graph: args.budget(480, 6000),
-            n_impl: args.budget(400, 5000),
+            n_impl: args.budget(360, 5000),
         };
         streams(&mut ctx, &mut rng, &b, &|| false);
     }
